@@ -35,7 +35,7 @@ theorem updateLoop_inv (now : Int) (spec document nowV : Val)
           | error e => exact hU
           | ok new =>
             dsimp only
-            by_cases hb : (if c.isOD key then pyEqOrdered new cur else pyEq new cur) = true
+            by_cases hb : pyEq new cur = true
             · -- "unchanged by `==`": stored and checked all the same
               rw [if_pos hb]
               cases hu : ensureUniques now (c.setDoc key new) new with
@@ -126,9 +126,7 @@ theorem uniqS_applyUpdate (cfg : Cfg) (now : Int) (c c' : Coll) (f u : Val) (up 
                 rw [hins] at h
                 have h5 : UniqS c5 := uniqS_insertDoc h4 hins
                 cases h
-                split
-                · exact h5
-                · exact h5
+                exact h5
   · cases h; exact hU
 
 end MongoModel.Proofs.C06Lemmas
